@@ -99,6 +99,10 @@ def r2a_rules(ctx: Ctx, kinds: set[str] | None = None) -> list[Ob]:
                         verdict = "shape"
                 elif isinstance(p, ast.Compare) and all(isinstance(o, (ast.Is, ast.IsNot)) for o in p.ops):
                     verdict = "none-test"
+                if verdict is None and _only_in_condition(n, parents):
+                    # an inspection of the operand inside a branch condition: nothing of it enters the
+                    # derived layer through this read
+                    verdict = "inspection"
                 if verdict is not None:
                     out.append(ok("R2a", r.fn.qualname, inst, f"{pname}.{n.attr} used through {verdict}", site))
                 else:
@@ -114,6 +118,21 @@ def r2a_rules(ctx: Ctx, kinds: set[str] | None = None) -> list[Ob]:
                         )
                     )
     return out
+
+
+def _only_in_condition(n: ast.AST, parents: dict[int, ast.AST]) -> bool:
+    """n occurs inside the test of an if / conditional expression / assert / while"""
+    cur: ast.AST | None = n
+    while cur is not None:
+        p = parents.get(id(cur))
+        if isinstance(p, (ast.If, ast.IfExp, ast.While)) and p.test is cur:
+            return True
+        if isinstance(p, ast.Assert) and p.test is cur:
+            return True
+        if isinstance(p, ast.stmt):
+            return False
+        cur = p
+    return False
 
 
 def _ctx_label(n: ast.AST, parents: dict[int, ast.AST]) -> str:
